@@ -273,3 +273,33 @@ def rule_star_point_lookup(ck, repo, R):
                       f'parse_mol_v3000 evaluates `atom_map[{k}]` where `{k} in star_points` holds: star points are not in atom_map, the lookup always fails ("invalid atoms number") '
                       f'-- the other end of the bond was meant', file=f.file, line=n.lineno, func=f.qualname, construct=src(n))
     ck.require(n_look >= 4, f'parse_mol_v3000: {n_look} atom_map lookups found, 4 confirmed by hand')
+
+
+def rule_rdf_header_once(ck, repo, R):
+    """RDF files start with one `$RDFILE 1` / `$DATM` header. The writer installs its header-writing first `write` exactly when the target is fresh:
+    always without append; with append only for a real file that is still empty (a buffer opened for appending is taken as already started)."""
+    from .r_query import _ev, _Unknown
+    ck.rule(R, '_RDFWrite.__init__ installs the header-writing write() iff (not append) or (target is a path and it is empty); the condition is evaluated for all '
+               '8 combinations of (append, is_buffer, position != 0), whatever its spelling: a second header in the middle of a file is read back as part of the '
+               'previous record\'s last metadata value')
+    c = repo.cls('chython.files.RDFrw:_RDFWrite')
+    f = c.method('__init__')
+    ck.require(f is not None, '_RDFWrite.__init__ not found')
+    ifs = [n for n in ast.walk(f.node) if isinstance(n, ast.If) and any(isinstance(a, ast.Assign) and src(a.targets[0]) == 'self.write' for a in n.body)]
+    ck.require(len(ifs) == 1, '_RDFWrite.__init__: the statement that installs the header-writing write() was not found')
+    test = ifs[0].test
+    bad = []
+    for append in (False, True):
+        for is_buffer in (False, True):
+            for pos in (0, 7):
+                try:
+                    got = bool(_ev(test, {'append': append, 'self._is_buffer': is_buffer, 'self._file.tell()': pos}))
+                except _Unknown as e:
+                    raise AnalysisError(f'_RDFWrite.__init__: header condition `{src(test)}` not understood ({e})')
+                want = (not append) or (not is_buffer and pos == 0)
+                if got != want:
+                    bad.append((append, is_buffer, pos, got))
+    ck.decide(not bad, R, 'header-condition', src(test),
+              f'_RDFWrite.__init__: under `{src(test)}` the header is {"written" if bad and bad[0][3] else "not written"} for (append, is_buffer, position) = '
+              f'{[b[:3] for b in bad]}; it must be written exactly when the target is fresh (no append, or an empty file)',
+              file=f.file, line=ifs[0].lineno, func=f.qualname, construct=src(test))
